@@ -15,7 +15,7 @@ VARIABLES l, bad, drift, nchk,
           capOf      \* block id -> [w, h, al] the image had when the block was first seen (al = -1: not known)
 vars == <<l, bad, drift, nchk, tr, hp, op, own, nalloc, dead, capOf>>
 
-NoOp == [op |-> "none", h |-> 0, from |-> 0, w |-> 0, hh |-> 0, al |-> 0, a |-> 0, fail |-> FALSE]
+NoOp == [op |-> "none", h |-> 0, from |-> 0, w |-> 0, hh |-> 0, al |-> 0, a |-> 0, fail |-> FALSE, cfail |-> 0]
 NoOwn == [w |-> 0, h |-> 0, blk |-> 0, bsize |-> 0, live |-> FALSE, a |-> 0]
 Psz == 4
 RowBytes(w, al) == IF al > 0 THEN Align(w * Psz, al) ELSE w * Psz
@@ -29,6 +29,7 @@ OpCause ==
     ELSE IF op.op \in {"Recreate", "RecreateFill"} /\ Unequal(own[op.h].a, 0) THEN "unequal-nonpropagating-allocators"
     ELSE IF op.op \in {"RecreateAlloc", "RecreateFillAlloc"} /\ Unequal(own[op.h].a, op.a) THEN "unequal-nonpropagating-allocators"
     ELSE IF op.fail THEN "injected-allocation-failure"
+    ELSE IF op.cfail > 0 THEN "injected-element-construction-failure"
     ELSE "None"
 Key == tr \o ":" \o op.op
 
@@ -45,8 +46,8 @@ StateVerdict(ev) ==
         x == op.h
         me == IF x \in 1..Len(ev.imgs) THEN ev.imgs[x] ELSE [live |-> FALSE]
         prev == IF x \in DOMAIN own THEN own[x] ELSE NoOwn
-        okRecreate == op.op \in {"Recreate", "RecreateAlloc", "RecreateFill", "RecreateFillAlloc"} /\ ~op.fail
-        okCtor == op.op = "Ctor" /\ ~op.fail
+        okRecreate == op.op \in {"Recreate", "RecreateAlloc", "RecreateFill", "RecreateFillAlloc"} /\ ~op.fail /\ op.cfail = 0
+        okCtor == op.op = "Ctor" /\ ~op.fail /\ op.cfail = 0
     IN  \* one live block per non-empty image, of sufficient size, and all pixels inside it
         (IF \E i \in NonEmpty : ev.imgs[i].blk \notin DOMAIN hp \/ ~ev.imgs[i].inside \/ ev.imgs[i].bsize < ev.imgs[i].w * ev.imgs[i].hh * Psz
          THEN {V("P_OneBlock", OpCause, Key, [imgs |-> ev.imgs])} ELSE {})
@@ -72,7 +73,7 @@ StateVerdict(ev) ==
 StateDrift(ev) ==
     LET x == op.h
         prev == IF x \in DOMAIN own THEN own[x] ELSE NoOwn
-        okRecreate == op.op \in {"Recreate", "RecreateAlloc", "RecreateFill", "RecreateFillAlloc"} /\ ~op.fail
+        okRecreate == op.op \in {"Recreate", "RecreateAlloc", "RecreateFill", "RecreateFillAlloc"} /\ ~op.fail /\ op.cfail = 0
     IN IF okRecreate /\ prev.live /\ prev.blk # 0 /\ prev.bsize >= Needed(op.w, op.hh, op.al) /\ nalloc > 0
           /\ (op.op \in {"Recreate", "RecreateFill"} \/ op.a = prev.a) /\ OpCause = "None"
        THEN {V("I_AllocSize", "model", Key, [had |-> prev.bsize, needed_by_model |-> Needed(op.w, op.hh, op.al)])} ELSE {}
@@ -83,6 +84,11 @@ DoneVerdict(ev) ==
     \* (a recreate to the dimensions the image already has may be a no-op; when the dimensions change every pixel holds the fill value)
     \cup (IF ev.op \in {"RecreateFill", "RecreateFillAlloc"} /\ ~ev.threw /\ ~ev.filled /\ (own[op.h].w # op.w \/ own[op.h].h # op.hh) THEN {V("P_RecreateFills", "None", Key, "recreate with a fill value left other values in the image")} ELSE {})
     \cup (IF ev.fired /\ ~ev.threw THEN {V("P_Strong", "None", Key, "allocation failure was swallowed")} ELSE {})
+    \cup (IF ev.cfired /\ ~ev.threw THEN {V("P_Strong", "None", Key, "element construction failure was swallowed")} ELSE {})
+
+\* the model chose a construction of the call to fail, but the call constructed fewer elements than that
+DoneDrift(ev) == IF ~dead /\ op.cfail > 0 /\ ~ev.cfired /\ ~ev.threw
+                 THEN {V("I_CtorFailPoint", "model", Key, [cfail |-> op.cfail])} ELSE {}
 
 Verdict(ev) ==
     IF dead /\ ev.e # "Reset" THEN {}
@@ -126,7 +132,8 @@ Step == /\ l <= NTr
                                   IF b \in DOMAIN capOf THEN capOf[b]
                                   ELSE LET h == CHOOSE h \in new : ev.imgs[h].blk = b IN [w |-> ev.imgs[h].w, h |-> ev.imgs[h].hh, al |-> alOf(h)]]
                        ELSE capOf
-           /\ drift' = IF ev.e = "State" /\ ~dead THEN MergeBad(drift, l, StateDrift(ev)) ELSE drift
+           /\ drift' = IF ev.e = "State" /\ ~dead THEN MergeBad(drift, l, StateDrift(ev))
+                       ELSE IF ev.e = "Done" THEN MergeBad(drift, l, DoneDrift(ev)) ELSE drift
         /\ l' = l + 1
 Fin  == /\ l = NTr + 1 /\ WriteOut(bad, drift, nchk) /\ l' = l + 1 /\ UNCHANGED <<bad, drift, nchk, tr, hp, op, own, nalloc, dead, capOf>>
 Next == Step \/ Fin
